@@ -1348,7 +1348,6 @@ func (fv *FV) havocTyped(st *State, t types.Type, addr *Term, tag string) {
 	}
 }
 
-
 // ---------------------------------------------------------------- ghost assignments
 
 // applyGhostDefs performs the contract's ghost assignments on st. env is the post-state environment
@@ -1449,7 +1448,6 @@ func (fv *FV) applyGhostDef(env *Env, st *State, gd GhostDef) {
 	st.ghost[g.Name] = build(old, 0)
 }
 
-
 // havocEach replaces the cell arrays by fresh ones that agree with the old ones outside the target set.
 func (fv *FV) havocEach(st *State, m modLoc, tag string) {
 	fv.nfresh++
@@ -1467,7 +1465,6 @@ func (fv *FV) havocEach(st *State, m modLoc, tag string) {
 	}
 }
 
-
 // havocAllExcept replaces the whole heap and ghost state by fresh ones that agree with the old ones on the
 // protected cells (fields of the excepted struct types), protected maps and protected ghost variables.
 func (fv *FV) havocAllExcept(st *State, m modLoc, tag string) {
@@ -1479,6 +1476,10 @@ func (fv *FV) havocAllExcept(st *State, m modLoc, tag string) {
 	fv.nfresh++
 	a := BoundVar(fmt.Sprintf("a!ax%d", fv.nfresh), RefSort)
 	prot := exceptTarget(m, a)
+	for _, p := range st.priv {
+		// variables of the caller that no callee can reach
+		prot = Or(prot, Eq(mk("rootid", IntSort, a), mk("rootid", IntSort, p)))
+	}
 	keys := fv.allKeys(st)
 	for key := range keys {
 		switch {
